@@ -2073,6 +2073,26 @@ def _mark_hang(item):
             pass
 
 
+THREAD_LEAK_CAP = 300  # threads alive in one worker process
+
+
+def _leak_capped(part):
+    """A run that ends in a deadlock / hang of the implementation cannot join its threads: they stay blocked in this
+    worker. Every such run has reported its failure already; once THREAD_LEAK_CAP threads are alive, no further run is
+    started in this worker (seeded C09-r1: 16 workers x ~2000 blocked threads exhausted the machine's thread limit and
+    the check ended with exit 2 instead of its violation). Threads alive without any reported failure = infrastructure."""
+    n = _rt.active_count()
+    if n <= THREAD_LEAK_CAP:
+        return False
+    part.count("thread_leak_cap_reached")
+    _LEAK_STOP[0] = True  # judged at the end of the item (`_work`): the runs made so far are compared / reported first
+    return True
+
+
+_LEAK_STOP = [False]
+_LEAK_FAILED = [False]  # some earlier item of this worker reported a failure (the leaked threads are its)
+
+
 ITEM_TIMEOUT = 3600  # last resort per work item; the specific guards inside are much shorter
 
 
@@ -2081,7 +2101,13 @@ def _work(item):
     part["extra"] = {}
     try:
         with alarm_guard(ITEM_TIMEOUT, "nontermination:work-item-" + item["kind"]):
-            return _work_inner(item, part)
+            res = _work_inner(item, part)
+            if part["failures"] or part["disagreements"]:
+                _LEAK_FAILED[0] = True
+            if _LEAK_STOP[0] and not _LEAK_FAILED[0] and not part["extra"].get("crash"):
+                part["extra"]["crash"] = (f"{_rt.active_count()} threads alive in a worker although no run reported a "
+                                          "failure")
+            return res
     except _Timeout as e:
         part.fail(str(e.args[0]), "real code called in the main thread of a worker did not return within its limit",
                   {"item": {k: v for k, v in item.items() if k not in ("scheds", "cfg", "marker")}})
@@ -2096,6 +2122,8 @@ def _work_inner(item, part):
             serial = serial_reference(case)
             results = []
             for sc in item["scheds"]:
+                if _leak_capped(part):
+                    break
                 it = iter(sc)
                 res = run_controlled(case, cfg, lambda k, obs, it=it: next(it, None), part)
                 if res is None:
@@ -2115,6 +2143,8 @@ def _work_inner(item, part):
 
             rng = random.Random(item["seed"])
             for _ in range(item["count"]):
+                if _leak_capped(part):
+                    break
                 case = random_case(rng, item["big"], allow_nested=True)
                 cfg = general_cfg(case)
                 if cfg is None:
@@ -2124,6 +2154,8 @@ def _work_inner(item, part):
                 serial = serial_reference(case)
                 results = []
                 for _w in range(item["walks"]):
+                    if _leak_capped(part):
+                        break
                     res = run_controlled(
                         case, cfg,
                         lambda k, obs: obs["enabled"][rng.randrange(len(obs["enabled"]))] if obs["enabled"] else None, part)
@@ -2141,6 +2173,8 @@ def _work_inner(item, part):
                 serial = serial_reference(case)
                 check_plan(part, "os", case, general_cfg(case), lean_batch([plan_request(case)])[0])
                 for rep in range(item["reps"]):
+                    if _leak_capped(part):
+                        return dict(part)
                     if _hang_seen(item):
                         return dict(part)  # a hang is already reported; further runs would only block again
                     r = run_os_confirmed(case, rng.randrange(1 << 30), part)
